@@ -275,6 +275,17 @@ func c05Parse(o *wout, shard, n int, thorough bool) {
 		})
 		o.states += nn
 	}
+	// wrong JSON kind at every node of every seed
+	for si, s := range seeds {
+		if si%n != shard {
+			continue
+		}
+		o.beat()
+		for _, text := range kindSwaps(s) {
+			o.states++
+			c05ParseOne(o, text)
+		}
+	}
 	// large documents
 	for i, s := range docgen.LargeDocs() {
 		if i%n != shard {
